@@ -45,6 +45,11 @@ def stepLine (t : FlexTab) (ws : List String) : FlexTab × String :=
       | .err => "err"
       | .panic => "panic")
     | none => (t, "bad-op")
+  | ["frames", _, hx] => match fromHex hx with      -- second word = chunking mode (implementation side only)
+    | some b =>
+      let (ps, left) := readFrames b
+      (t, s!"frames n={ps.length} payloads={joinWith "|" (ps.map toHex)} end={if left.isEmpty then "eof" else "err"}")
+    | none => (t, "bad-op")
   | ["rt", k, v, c, cid, hx] => match k.toInt?, v.toInt?, c.toInt?, fromHex hx with
     | some k, some v, some c, some b =>
       (t, match parseHeader (flexOf t) b with
